@@ -124,3 +124,12 @@ Lemma nrt_as_found_refuted :
   map fst (ob_bundles (obs_rt kgen 0 dup_prog 0 dup_sched)) = [1#4; 1#2] /\
   obs_rt kgen 0 dup_prog 0 dup_sched = obs_nrt kgen dup_prog 10.
 Proof. vm_compute. repeat split; reflexivity. Qed.
+
+(* ---- the beats setter inside the routine's own wake-up ------------------------------------------------------- *)
+(* routine 1 on TempoClock(4) rewinds the clock to beat 0 at beat 1/2 and goes on yielding 1/4: its next wake-up is at the
+   beat it was awaken at + 1/4 = 3/4 of the rewound clock (5/16 s) in both modes; routine 2 of the same clock is pending meanwhile *)
+Definition setb_prog : xprog :=
+  mkXP [4] [[XPlay 1 (CTempo 0); XPlay 2 (CTempo 0)];
+            [XYield (1#4); XYield (1#4); XSetBeats 0 0; XYield (1#4); XSend (Some 0) [EMsg 1]; XYield (1#2); XSend (Some 0) [EMsg 2]];
+            [XYield (3#4); XSend (Some 0) [EMsg 3]; XYield (1#4); XSend (Some 0) [EMsg 4]]] 0 0 1 0.
+Definition setb_sched : list (nat * Q) := [wk 0 2; wk 1 2; wk 2 2; wk 1 3; wk 1 3; wk 2 3; wk 1 4; wk 2 4; wk 1 5].
